@@ -8,7 +8,10 @@ import mutate, engine, extract
 
 
 def runner(fd):
+    import check as checkmod
+    known = {k for (_p, k) in checkmod.load_known()}
     F, roles, R = engine.run_all(fd)
+    R.obs = [o for o in R.obs if o['ok'] or checkmod.vkey(o) not in known]  # recorded open findings are not self-test signals
     return [dict(rule=o['rule'], key=o['key'], status=o['status'], props=list(o['props']), msg=o['msg'][:400]) for o in R.obs if not o['ok']]
 
 
